@@ -134,14 +134,14 @@ for _fmt, _kw in VARIANTS:
                tier=_tier if not _edd else "thorough", T=1200 if _edd else 200, funcs=FORMAT_FUNCS[_fmt], assumes=[ADHOC_SHIMS_DOC],
                bound="a:int=3, b:str with default = %s" % ("2 characters over the finite alphabet %r (the prose path realises the text)" % SIGMA if _edd else "ANY 2 printable characters"),
                )(_strdflt(_fmt, _style, _edd, **_kw))
-            ob("C02", "P1.intdflt.%s" % _t, {"i": R(-20, 20) if not _edd else R(-3, 3), "b": BOOL}, tier=_tier, T=300, funcs=FORMAT_FUNCS[_fmt], assumes=[ADHOC_SHIMS_DOC],
+            ob("C02", "P1.intdflt.%s" % _t, {"i": R(-20, 20) if not _edd else R(-3, 3), "b": BOOL}, enum=True, tier=_tier, T=300, funcs=FORMAT_FUNCS[_fmt], assumes=[ADHOC_SHIMS_DOC],
                bound="a:int with default %s, b:bool with default True/False" % ("-20..20" if not _edd else "-3..3"))(_intdflt(_fmt, _style, _edd, **_kw))
-            ob("C02", "P1.desc.%s" % _t, {"c0": PR, "c1": PR}, pre="c0 != 47 and c1 != 47", tier=_tier if not _edd else "thorough", T=1200 if _edd else 300, funcs=FORMAT_FUNCS[_fmt],
+            ob("C02", "P1.desc.%s" % _t, {"c0": PR, "c1": PR}, pre="c0 != 47 and c1 != 47", tier=_tier if not _edd else "thorough", T=1200 if _edd else 600, funcs=FORMAT_FUNCS[_fmt],
                assumes=[ADHOC_SHIMS_DOC], bound="description 'The '+XY and prose 'Head '+Y+'.' for EVERY printable X, Y except '/'")(_desc(_fmt, _style, _edd, **_kw))
-            ob("C02", "P1.optdflt.%s" % _t, {"i": R(-1, 1), "b": BOOL, "e": BOOL}, tier=_tier, T=300, funcs=FORMAT_FUNCS[_fmt], assumes=[ADHOC_SHIMS_DOC],
+            ob("C02", "P1.optdflt.%s" % _t, {"i": R(-1, 1), "b": BOOL, "e": BOOL}, enum=True, tier=_tier, T=300, funcs=FORMAT_FUNCS[_fmt], assumes=[ADHOC_SHIMS_DOC],
                bound="Optional[int]=-1..1, Optional[bool]=True/False, Optional[str], Optional[float]=0.0/1.5 (falsy and truthy defaults)")(_optdflt(_fmt, _style, _edd, **_kw))
             if _fmt != "argparse" and _style != "google":  # Google + return entry inside an indented docstring: finding F22b
-                ob("C02", "P1.nodflt.%s" % _t, {"k": R(0, 4)}, tier=_tier, T=200, funcs=FORMAT_FUNCS[_fmt], assumes=[ADHOC_SHIMS_DOC],
+                ob("C02", "P1.nodflt.%s" % _t, {"k": R(0, 4)}, enum=True, tier=_tier, T=200, funcs=FORMAT_FUNCS[_fmt], assumes=[ADHOC_SHIMS_DOC],
                    bound="first parameter WITHOUT default of type int/str/float/bool/Optional[int], second with default, return entry int")(_nodflt(_fmt, _style, _edd, **_kw))
 
 
@@ -150,7 +150,8 @@ E = Ellipsis
 TYPE_CASES = (("Literal['a', 'b', 'c']", "b"), ("Literal['a', 'b']", E), ("List[str]", E), ("Union[int, str]", 3), ("Union[int, str]", "x"), ("os.PathLike", E),
               ("Dict[str, int]", E), ("Callable[[int], str]", E), ("float", -0.5), ("int", 10 ** 20), ("complex", E), ("str", "a b"), ("float", 1e20),
               ("float", 1e-07), ("str", ""), ("Optional[List[int]]", E), ("Tuple[int, int]", E), ("List[Optional[str]]", E),
-              ("Literal['sum', 'mean', 'none']", "mean"), ("Optional[Literal['valid', 'same']]", "same"), ("Literal['b', 'a', 'b']", "a"))  # members NOT in sorted order / repeated
+              ("Literal['sum', 'mean', 'none']", "mean"), ("Optional[Literal['valid', 'same']]", "same"), ("Literal['b', 'a', 'b']", "a"),  # members NOT in sorted order / repeated
+              ("typing.Optional[int]", 5), ("Dict[str, typing.Any]", E), ("typing.List[str]", E), ("numpy.typing.ArrayLike", E))  # module-qualified spellings of the same types
 ARGPARSE_CASES = (0, 8, 9, 11, 12, 13, 14, 18, 19, 20)  # what an add_argument call can carry WITH a default (without: finding F23); the others are finding F40
 
 
